@@ -177,6 +177,10 @@ func c16Settings() (out []PSetting) {
 	for _, lvl := range []int{-2, 1, 2} {
 		out = append(out, PSetting{Pkg: "flate", WSetting: WSetting{Ctor: "new", Level: lvl}})
 	}
+	// gzip header fields that cannot be written: every call that has to emit the header fails, in the
+	// standard library and here alike, until Reset clears the fields
+	out = append(out, PSetting{Pkg: "gzip", WSetting: WSetting{Ctor: "new", Level: 1}, Hdr: &GzHdr{Name: "n\u0100me"}})
+	out = append(out, PSetting{Pkg: "gzip", WSetting: WSetting{Ctor: "new", Level: 6}, Hdr: &GzHdr{Comment: "nul\x00inside"}})
 	return out
 }
 
